@@ -204,11 +204,15 @@ var unClassGen = map[string]func(r *rand.Rand) float64{
 	"zero":    func(r *rand.Rand) float64 { return 0 },
 	"negzero": func(r *rand.Rand) float64 { return math.Copysign(0, -1) },
 	"finite": func(r *rand.Rand) float64 {
-		switch r.Intn(4) {
+		switch r.Intn(6) {
 		case 0:
 			return float64(1 + r.Intn(9))
 		case 1:
 			return float64(r.Int63n(1<<40))*float64(1+r.Intn(3)) + 1
+		case 2:
+			// whole numbers of 17..21 digits, on both sides of 2^63 and 2^64 (written as plain digits)
+			return math.Trunc([]float64{9.3e18 + r.Float64()*0.6e18, float64(r.Uint64()), 1e16 + r.Float64()*9e17,
+				1.84e19 + r.Float64()*1e18, r.Float64() * 1e21}[r.Intn(5)])
 		}
 		v := (0.5 + r.Float64()) * math.Pow(10, float64(r.Intn(160)-80))
 		if r.Intn(3) == 0 {
@@ -259,7 +263,7 @@ func unValueText(v float64, r *rand.Rand) string {
 	case 0:
 		return strconv.FormatFloat(v, 'e', -1, 64)
 	case 1:
-		if v == math.Trunc(v) && math.Abs(v) < 1e15 {
+		if v == math.Trunc(v) && math.Abs(v) < 1e22 {
 			return strconv.FormatFloat(v, 'f', -1, 64)
 		}
 	}
@@ -444,6 +448,36 @@ func unValueStr(v benchfmt.Value) string {
 	return fmt.Sprintf("{Value:%s Unit:%q OrigValue:%s OrigUnit:%q}", unFloatStr(v.Value), v.Unit, unFloatStr(v.OrigValue), v.OrigUnit)
 }
 
+// unSharedReader (record mode): one Reader for every line of the run, primed with
+// more distinct units than its string table holds, so that every new unit is read
+// by a reader with a long history.
+var unSharedReader *benchfmt.Reader
+
+func unPrimeSharedReader() error {
+	var b strings.Builder
+	for l := 0; l < 4; l++ {
+		b.WriteString("BenchmarkPrime 1")
+		for i := 0; i < 300; i++ {
+			fmt.Fprintf(&b, " 1 fill%d-ns/op", l*300+i)
+		}
+		b.WriteString("\n")
+	}
+	r := benchfmt.NewReader(strings.NewReader(b.String()), "prime.txt")
+	n := 0
+	for r.Scan() {
+		res, ok := r.Result().(*benchfmt.Result)
+		if !ok || len(res.Values) != 300 {
+			return fmt.Errorf("priming the shared reader: %v", r.Result())
+		}
+		n++
+	}
+	if n != 4 || r.Err() != nil {
+		return fmt.Errorf("priming the shared reader: %d results, err %v", n, r.Err())
+	}
+	unSharedReader = r
+	return nil
+}
+
 // unReadLine reads "BenchmarkX 1 <v1> <unit> <v2> <unit> ..." with the real reader.
 func unReadLine(fails *unFails, unit string, vals []*unVal) *benchfmt.Result {
 	var b strings.Builder
@@ -452,7 +486,12 @@ func unReadLine(fails *unFails, unit string, vals []*unVal) *benchfmt.Result {
 		b.WriteString(" " + x.text + " " + unit)
 	}
 	line := b.String()
-	r := benchfmt.NewReader(strings.NewReader(line+"\n"), "c04.txt")
+	r := unSharedReader
+	if r != nil {
+		r.Reset(strings.NewReader(line+"\n"), "c04.txt")
+	} else {
+		r = benchfmt.NewReader(strings.NewReader(line+"\n"), "c04.txt")
+	}
 	if !r.Scan() {
 		fails.add("reader-no-record", "no record for %q (err %v)", line, r.Err())
 		return nil
@@ -741,6 +780,12 @@ func unRandomUnit(r *rand.Rand, blanks bool) string {
 	for {
 		var b strings.Builder
 		n := 1 + r.Intn(9)
+		limit := 30
+		if r.Intn(8) == 0 {
+			// long units (a dozen or more name parts joined by '-', '/' and '*')
+			n = 10 + r.Intn(40)
+			limit = 400
+		}
 		for i := 0; i < n; i++ {
 			if i > 0 || r.Intn(6) == 0 {
 				for {
@@ -756,7 +801,7 @@ func unRandomUnit(r *rand.Rand, blanks bool) string {
 			}
 		}
 		s := b.String()
-		if s != "" && utf8.RuneCountInString(s) <= 30 {
+		if s != "" && utf8.RuneCountInString(s) <= limit {
 			return s
 		}
 	}
@@ -823,6 +868,9 @@ func unRecord(args []string) error {
 		return err
 	}
 	rng := newRand(4004)
+	if err := unPrimeSharedReader(); err != nil {
+		return err
+	}
 	classes := make([]string, 0, len(unClassGen))
 	for c := range unClassGen {
 		classes = append(classes, c)
